@@ -45,8 +45,11 @@ func PrepareModfile(repo, verif, buildDir string) (string, error) {
 	if err != nil {
 		return "", err
 	}
-	extra := fmt.Sprintf("\nrequire vsym v0.0.0\nreplace vsym => %s\nreplace github.com/youzan/gorocksdb => %s\n",
-		filepath.Join(verif, "vsym"), filepath.Join(verif, "stubs", "gorocksdb"))
+	// stubs/ugorji: the pinned github.com/ugorji/go with one character of a code-generator base64 alphabet
+	// corrected ("__" -> "-_"); the original panics in package init under go >= 1.22 (duplicate symbol), which
+	// keeps every test binary that links it (cluster/pdnode_coord, server) from starting.
+	extra := fmt.Sprintf("\nrequire vsym v0.0.0\nreplace vsym => %s\nreplace github.com/youzan/gorocksdb => %s\nreplace github.com/ugorji/go => %s\n",
+		filepath.Join(verif, "vsym"), filepath.Join(verif, "stubs", "gorocksdb"), filepath.Join(verif, "stubs", "ugorji"))
 	mf := filepath.Join(buildDir, "repo.mod")
 	if err := os.WriteFile(mf, append(gomod, []byte(extra)...), 0644); err != nil {
 		return "", err
